@@ -96,6 +96,13 @@ public:
         FASTOR_ASSERT(src.self().size()==size(), "TENSOR SIZE MISMATCH");
         assign(*this, src.self());
     }
+    // Assignment from a map of the same type copies the elements like every other assignment does.
+    // (The implicit copy assignment would be preferred over the template above and only copy the
+    // pointer, silently re-targeting this map to the other buffer.)
+    FASTOR_INLINE void operator=(const TensorMap<T,Rest...>& src) {
+        if (_data == src._data) return;
+        assign(*this, src);
+    }
 
     // AbstractTensor and scalar in-place operators
     //----------------------------------------------------------------------------------------------------------//
